@@ -425,8 +425,11 @@ import numpy as _rnp
 
 
 class KArr(object):
-    def __init__(self, dt):
+    def __init__(self, dt, frac=False):
         self.dt = _rnp.dtype(dt)
+        # may hold non-integral information derived from the query points
+        # (distances, interpolation weights)
+        self.frac = bool(frac) and self.dt.kind in 'fc'
 
     def __repr__(self):
         return 'KArr(%s)' % self.dt
@@ -491,6 +494,7 @@ class KH(Hooks):
         self.vdt = _rnp.dtype(vdt)
         self.events = []
         self.search_dt = []
+        self.truncations = []
 
     def on_name(self, interp, name):
         if name == 'product':
@@ -520,7 +524,10 @@ class KH(Hooks):
                     d2 = as_np_dt(dt)
                     if not _rnp.can_cast(obj.dt, d2, casting):
                         raise PyRaise('TypeError')
-                    return KArr(d2)
+                    if obj.frac and d2.kind in 'biu':
+                        self.truncations.append('astype(%s) of %s data'
+                                                % (d2, obj.dt))
+                    return KArr(d2, obj.frac)
                 return Builtin('astype', astype)
         if obj is NPV:
             if name in ('float16', 'float32', 'float64', 'complex64',
@@ -535,7 +542,12 @@ class KH(Hooks):
                         dt = a[0]
                     if dt is not None and not (isinstance(dt, Opaque) and
                                                dt.desc == 'object'):
-                        return KArr(as_np_dt(dt))
+                        fr = isinstance(v, KArr) and v.frac
+                        if fr and as_np_dt(dt).kind in 'biu':
+                            self.truncations.append(
+                                'np.%s(..., dtype=%s) of %s data'
+                                % (name, as_np_dt(dt), v.dt))
+                        return KArr(as_np_dt(dt), fr)
                     if isinstance(v, (list, tuple)) and v and not \
                             isinstance(v[0], KArr):
                         return KArr(_rnp.result_type(
@@ -553,10 +565,11 @@ class KH(Hooks):
                     if not a:
                         return (KArr('intp'),)
                     return KArr(_rnp.result_type(*[np_operand(x)
-                                                   for x in a]))
+                                                   for x in a]),
+                                any(getattr(x, 'frac', False) for x in a))
                 return Builtin('np.where', where)
             if name == 'copy':
-                return Builtin('np.copy', lambda a, **k: KArr(a.dt))
+                return Builtin('np.copy', lambda a, **k: KArr(a.dt, a.frac))
             if name in ('zeros', 'empty', 'ones'):
                 def mk(shape, *a, **k):
                     dt = k.get('dtype', a[0] if a else None)
@@ -596,7 +609,7 @@ class KH(Hooks):
 
     def on_subscript(self, interp, obj, idx):
         if isinstance(obj, KArr):
-            return KArr(obj.dt)
+            return KArr(obj.dt, obj.frac)
         return NotImplemented
 
     def result(self, op, l, r):
@@ -607,7 +620,9 @@ class KH(Hooks):
 
     def on_binop(self, interp, op, l, r):
         if isinstance(l, KArr) or isinstance(r, KArr):
-            return KArr(self.result(op, l, r))
+            return KArr(self.result(op, l, r),
+                        getattr(l, 'frac', False) or getattr(r, 'frac',
+                                                             False))
         return NotImplemented
 
     def on_call(self, interp, f, args, kwargs, node):
@@ -652,6 +667,8 @@ class KInterp(Interp):
                     self.hooks.events.append(
                         (s.lineno, ast.unparse(s), str(cur.dt), str(res)))
                     raise PyRaise('UFuncTypeError', s)
+                if getattr(v, 'frac', False) and cur.dt.kind in 'fc':
+                    cur.frac = True
                 return
         return Interp.augassign(self, s, scope, func)
 
@@ -671,14 +688,14 @@ def kind_run(model, cls, schemes, vdt):
         inst = I.instantiate(model.get(cls), args, {})
         try:
             r = I.call(I.getattr_value(inst, '__call__'),
-                       [(KArr('float64'),)], {})
+                       [(KArr('float64', True),)], {})
         except PyRaise as e:
             n = e.node
             return ('raise', e.name, getattr(n, 'lineno', None),
                     ast.unparse(n) if n is not None else '')
         if not isinstance(r, KArr):
             raise Undecided('result %r' % (r,))
-        return ('ok', r.dt, list(hooks.search_dt))
+        return ('ok', r.dt, list(hooks.search_dt), list(hooks.truncations))
     leaves = explore(once, limit=8)
     if len(leaves) != 1:
         raise Undecided('%d paths' % len(leaves))
@@ -714,14 +731,14 @@ def kind_run_factory(model, cls, schemes, vdt):
             args.append(list(schemes))
         try:
             interp = I.call_func(Func(fn, I.env_of(DU), None), args, {})
-            r = I.call(interp, [(KArr('float64'),)], {})
+            r = I.call(interp, [(KArr('float64', True),)], {})
         except PyRaise as e:
             n = e.node
             return ('raise', e.name, getattr(n, 'lineno', None),
                     ast.unparse(n) if n is not None else '')
         if not isinstance(r, KArr):
             raise Undecided('result %r' % (r,))
-        return ('ok', r.dt, list(hooks.search_dt))
+        return ('ok', r.dt, list(hooks.search_dt), list(hooks.truncations))
     leaves = explore(once, limit=8)
     if len(leaves) != 1:
         raise Undecided('%d paths' % len(leaves))
@@ -1003,6 +1020,10 @@ def check(ctx):
                     break
             if not sdts:
                 probs.append('no node search observed')
+            if len(r) > 3 and r[3]:
+                probs.append('fractional data derived from the query points '
+                             '(distances / interpolation weights) are '
+                             'truncated to an integer dtype: %s' % r[3][0])
             if probs:
                 rep.violation('R5', key, '; '.join(probs), DU)
             else:
@@ -1566,6 +1587,10 @@ def _formulas():
     def const(I, H, x, c):
         return 5
 
+    def cconst(I, H, x, c):
+        # a complex constant, for complex output dtypes
+        return 2 + 3 * IU
+
     def param(I, H, x, c):
         return H.binop_na(I, ast.Add, _coord(x, 1), 0 if c is None else c)
 
@@ -1585,6 +1610,7 @@ def _formulas():
         x0 = _coord(x, 0)
         return H.binop_na(I, ast.Mult, x0, x0)
     return {'full': full, 'partial0': partial0, 'const': const,
+            'cconst': cconst,
             'param': param, 'cplx': cplx, 'one_d': one_d,
             'one_d_idx': one_d_idx}
 
@@ -1592,6 +1618,7 @@ def _formulas():
 def _expect(name, a, b, c=None):
     return {'full': lambda: a + 2 * b, 'partial0': lambda: 3 * a,
             'const': lambda: Rat.const(5),
+            'cconst': lambda: 2 + 3 * IU,
             'param': lambda: b + (0 if c is None else c),
             'cplx': lambda: a + IU * b, 'one_d': lambda: a * a,
             'one_d_idx': lambda: a * a}[name]()
@@ -1602,7 +1629,7 @@ def sample_once(model, fname, style, conv, with_out, kw=None):
     import numpy as _np
     F = _formulas()
     ndim = 1 if fname.startswith('one_d') else 2
-    dtn = 'complex128' if fname == 'cplx' else 'float64'
+    dtn = 'complex128' if fname in ('cplx', 'cconst') else 'float64'
     H = SamplH()
     I = NAInterp(model, {}, H)
     if style == 'vectorized':
@@ -1771,8 +1798,8 @@ def element_ownership(rep, model):
 
 def sampling(rep, model, thorough):
     n = 0
-    for fname in ('full', 'partial0', 'const', 'param', 'cplx', 'one_d',
-                  'one_d_idx'):
+    for fname in ('full', 'partial0', 'const', 'cconst', 'param', 'cplx',
+                  'one_d', 'one_d_idx'):
         for style in ('oop', 'ip', 'dual', 'vectorized'):
             for conv in ('mesh', 'array'):
                 for with_out in (False, True):
@@ -1808,7 +1835,8 @@ def sampling(rep, model, thorough):
                                              'value there is %r'
                                              % (idx, g, w))
                                 break
-                        wdt = 'complex128' if fname == 'cplx' else 'float64'
+                        wdt = 'complex128' if fname in ('cplx', 'cconst') \
+                            else 'float64'
                         if res.dt != DT(wdt):
                             probs.append('dtype %r, expected %s'
                                          % (res.dt, wdt))
